@@ -161,6 +161,11 @@ func (b *BindResp) IDecode(data []byte) error {
 
 	b.Header = smpp.ReadHeader(buf)
 
+	// SMPP 3.4 §4.1.2 / §4.1.4 / §4.1.6: the body of a bind response is not returned if command_status is non-zero
+	if b.Header.Status != smpp.ESME_ROK && buf.Error() == nil && buf.Remaining() == 0 {
+		return nil
+	}
+
 	b.SystemID = buf.ReadCString()
 
 	b.TLVs = smpp.ReadTLVs1(buf)
